@@ -52,6 +52,17 @@ CHECKS = {
              "oracle re-derives every operation's type from its operands' recorded types on every real MIR.",
         note=MODEL_NOTE, technique="Lean 4 proof by mutual structural induction + kernel-decided table; type re-derivation oracle",
         design="6 C05"),
+    "C07": dict(
+        text="Lean `nonliterals_oblivious` (decide +kernel) over the special-method table regenerated by reflection from the running "
+             "classes (T3: every Nada value class x protocol slot x kind of other operand): with CPython's dispatch rules modelled in "
+             "Py/Protocol.lean, every truth test of a non-literal value raises, every comparison raises or returns a Nada value, "
+             "comparisons used as conditions / ordering / membership raise, the classes are unhashable, iterating an Array raises. "
+             "Partial: the dispatch model is validated, not derived — every construct is executed on real instances (three provenances) "
+             "on every run and compared with the model's prediction, and judged directly.",
+        note="Trusted: Lean kernel, T3 reflection, Py/Protocol.lean as a model of CPython special-method dispatch (checked against real "
+             "executions of 26+ constructs per class on every run). 'MIR is a function of the program text' is C13's determinism clause.",
+        technique="Lean 4 proof by kernel evaluation over a reflected protocol table + exhaustive route execution",
+        design="6 C07"),
     "C08": dict(
         text="Lean `compile_mono` (induction over the traversal, the function worklist and the output list): if the store returns for "
              "every id the program's own record, then whatever else it holds — records of earlier programs, partial effects of failed "
